@@ -1,0 +1,58 @@
+//go:build verif
+
+// Contracts for the compression function of the Poseidon2 instance of this small field (installed by /verif/gcv
+// gen-contracts). The hash registry wraps it in the Merkle-Damgard construction through the Compressor interface,
+// which promises: "the inputs and outputs are all of the same size, which is the block size" (hash/interface.go).
+// Compress is under contract for the sizes it accepts (half of the state, encoded); the lemma function
+// below - ordinary Go code under the verif tag, verified from that contract with BlockSize executed in place -
+// states the promise of the interface for the inputs: whatever Compress accepts has the size BlockSize reports (the size
+// of the output is not stated: the element encoder is an opaque call here).
+// The permutation itself and the element codecs are opaque calls.
+
+package poseidon2
+
+func verifLemmaCompressorSizes(h *Permutation, left, right []byte) bool {
+	out, err := h.Compress(left, right)
+	if err != nil {
+		return true
+	}
+	b := h.BlockSize()
+	_ = out
+	return len(left) == b && len(right) == b
+}
+
+//@ func io.ReadFull
+//@ assumed io.ReadFull (standard library): copies into buf from the reader and reports how many bytes it copied, at most len(buf), and exactly len(buf) when it returns no error
+//@ ensures 0 <= result0 && result0 <= len(buf) && (isnil(result1) ==> result0 == len(buf))
+//@ modifies buf
+//@ end
+
+//@ func slices.Clone
+//@ layer ring goldilocks.Element
+//@ assumed slices.Clone (standard library): a newly allocated copy of its argument
+//@ ensures len(result) == len(s) && fresh(result)
+//@ end
+
+//@ func Permutation.Compress
+//@ layer ring goldilocks.Element
+//@ option opaque-calls
+//@ option inline-callees Marshal Bytes
+//@ option fresh-loop-slices
+//@ option nomerge
+//@ requires 0 <= h.params.Width && h.params.Width <= 1024
+//@ loop 0
+//@ + invariant[index] 0 <= iter && iter <= 1024
+//@ loop 1
+//@ + invariant[output] 0 <= iter && iter <= n && n <= 512 && h.params.Width == 2*n && len(res) == n && len(x) == 2*n
+//@ ensures[sizes] isnil(result1) ==> len(left) == (h.params.Width / 2) * goldilocks.Bytes && len(right) == (h.params.Width / 2) * goldilocks.Bytes
+//@ modifies nothing
+//@ end
+
+//@ func verifLemmaCompressorSizes
+//@ layer ring goldilocks.Element
+//@ option inline-callees BlockSize
+//@ option nomerge
+//@ requires 0 <= h.params.Width && h.params.Width <= 1024
+//@ ensures[compressor-block-size] result
+//@ modifies nothing
+//@ end
